@@ -167,6 +167,8 @@ func VerifC13DeepPath() {
 	vassert(strings.Contains(rerr.Error(), "node path: ["+want+"]"), "the error names the full failing node path through nested graphs: "+want)
 }
 
+type c13PS struct{ N int }
+
 // Several parallel nodes, each succeeding, failing or panicking (at least one fault), under every schedule within the
 // bound, in batch (Pregel/DAG) and eager (Workflow) execution: the run fails with an error that belongs to one of the
 // faulty nodes (its own error value, or a panic error naming its node path); it never succeeds, hangs or crashes.
@@ -215,9 +217,20 @@ func VerifC13ParallelFaults() {
 		}
 		r, err = wf.Compile(ctx)
 	} else {
-		g := NewGraph[map[string]any, map[string]any]()
+		// optionally every node has a state post-handler (run by the run loop when the completion is collected)
+		withPost := vchoose("post", 2) == 1
+		var gopts []NewGraphOption
+		var nopts []GraphAddNodeOpt
+		if withPost {
+			gopts = append(gopts, WithGenLocalState(func(ctx context.Context) *c13PS { return &c13PS{} }))
+			nopts = append(nopts, WithStatePostHandler(func(ctx context.Context, out map[string]any, s *c13PS) (map[string]any, error) {
+				s.N++
+				return out, nil
+			}))
+		}
+		g := NewGraph[map[string]any, map[string]any](gopts...)
 		for _, k := range names {
-			_ = g.AddLambdaNode(k, body(k))
+			_ = g.AddLambdaNode(k, body(k), nopts...)
 			_ = g.AddEdge(START, k)
 			_ = g.AddEdge(k, END)
 		}
